@@ -983,7 +983,7 @@ class SourceFinder(object):
             sy = model[prefix + "sy"].value
             theta = model[prefix + "theta"].value
             amp = model[prefix + "amp"].value
-            src_flags |= model[prefix + "flags"].value
+            src_flags |= int(model[prefix + "flags"].value)
 
             # these are goodness of fit statistics for the entire island.
             source.residual_mean = residual[0]
@@ -1843,7 +1843,8 @@ class SourceFinder(object):
                         params[prefix + p].vary = False
                         params[prefix + p].stderr = np.nan
                         # the above results in an error of -1 later on
-                    params[prefix + "flags"].value |= flags.NOTFIT
+                    params[prefix + "flags"].value = (
+                        int(params[prefix + "flags"].value) | flags.NOTFIT)
 
             # determine the number of free parameters and
             # if we have enough data for a fit
